@@ -75,7 +75,8 @@ type runner struct {
 	lines  []string // op lines executed so far (input form)
 	nested bool     // executing a nested (interleaved) operation
 	// combined mode "Q": real quota-enforcing pool over the real block-device pool over the real
-	// bitmap allocator; judged by the monitors only (no Lean model of the stack)
+	// bitmap allocator; judged by the monitors and compared with the composed model
+	// Model/PoolStack.lean (driver drv_poolstack, see stack.go); r.drv is that driver then
 	quota              bool
 	maxFiles, maxBytes int64
 	// mode "G": device of several GiB (sparse), sectors reserved directly from the real allocator
@@ -134,7 +135,14 @@ func newRunner(cfg string, drv *hx.Driver, out *outcome) (*runner, error) {
 			return nil, fmt.Errorf("bad cfg line %q", cfg)
 		}
 		r.maxFiles, r.maxBytes = mf, mb
+		// the whole stack is compared with the composed model (Model/PoolStack.lean, stack.go)
 		r.drv = nil
+		if drv != nil {
+			r.drv = stackDriver()
+			if ans, err := r.drv.Ask(fmt.Sprintf("cfg %d %d %d %d", ss, nsec, mf, mb)); err != nil || ans != "ok" {
+				return nil, fmt.Errorf("composed-pool model driver rejected cfg: %q %v", ans, err)
+			}
+		}
 		drv = nil
 	}
 	r.e = &env{ss: ss, nsec: nsec, plan: noFaults()}
@@ -179,6 +187,10 @@ func (r *runner) ask(line, actual string) bool {
 	if r.drv == nil {
 		return true
 	}
+	what := "FilePool correspondence: "
+	if r.quota {
+		line, actual, what = stackInput(line, r.e.plan), stackActual(line, actual, r.e.plan), "PoolStack correspondence: "
+	}
 	exp, err := r.drv.Ask(line)
 	if err != nil {
 		exp = "driver-error " + err.Error()
@@ -186,7 +198,7 @@ func (r *runner) ask(line, actual string) bool {
 	if exp != actual {
 		// Record the disagreement, then go on without the model: if the change behind it breaks the
 		// property, the monitor gets the chance to show it on the rest of the history.
-		r.out.mismatch = "FilePool correspondence: " + line
+		r.out.mismatch = what + line
 		r.out.expected, r.out.actual = exp, actual
 		r.drv = nil
 	}
@@ -366,7 +378,7 @@ func (r *runner) exec(line string) (ok bool) {
 			if !isQuotaErr(err) {
 				return r.fail("NewFile(size %d) succeeded (or failed with %v) although only %d files / %d bytes of quota remain", size, err, remF, remB)
 			}
-			return true
+			return r.ask(opPart, "new invalid")
 		}
 		if err != nil {
 			return r.fail("NewFile failed: %v", err)
@@ -466,7 +478,7 @@ func (r *runner) exec(line string) (ok bool) {
 				if got != 0 || !isQuotaErr(err) || r.acct.nUsed != before {
 					return r.fail("WriteAt growing file %d by %d bytes returned %d, %v although only %d bytes of quota remain", id, growth, got, err, remB)
 				}
-				return r.monitorAfter()
+				return r.monitorAfter() && r.ask(modelLine(opPart, modelToks, pl.answers), "w 0 invalid") && r.dumpCheck(true)
 			} else if isQuotaErr(err) {
 				return r.fail("WriteAt growing file %d by %d bytes was refused (%v) although %d bytes of quota remain", id, growth, err, remB)
 			}
@@ -517,7 +529,7 @@ func (r *runner) exec(line string) (ok bool) {
 				if n, _ := f.real.Len(); n != int64(len(f.exp)) {
 					return r.fail("a Truncate refused for quota changed the size of file %d from %d to %d", id, len(f.exp), n)
 				}
-				return r.monitorAfter()
+				return r.monitorAfter() && r.ask(modelLine(opPart, modelToks, pl.answers), "d invalid") && r.dumpCheck(true)
 			} else if isQuotaErr(err) {
 				return r.fail("Truncate growing file %d by %d bytes was refused (%v) although %d bytes of quota remain", id, growth, err, remB)
 			}
@@ -757,6 +769,9 @@ func (r *runner) monitorAfter() bool {
 // dumpCheck compares the abstract state (allocated set, file sizes) with the model's.
 func (r *runner) dumpCheck(mutating bool) bool {
 	if mutating && r.drv != nil && !r.nested {
+		if r.quota {
+			return r.ask("dump", r.stackDump())
+		}
 		return r.ask("dump", r.dump())
 	}
 	return true
@@ -1334,13 +1349,14 @@ func offsetLines(rng *hx.Rand) []string {
 
 func main() {
 	o := hx.ParseFlags()
-	res := hx.NewResult("filepool", o, "random write/read/truncate/seek/len/close histories over 1-6 simultaneously open files (<= 10 per history) of the real block-device-backed pool; sector sizes {1,2,3,8,512}, devices of 1-130 sectors, scripted or real bitmap allocator, tagged non-zero hole sources, offsets at sector boundaries +-1 and around the file size, faults injected into device reads/writes, hole-source reads/seeks/Truncate/Close and allocations; in a third of the histories operations are interleaved: a complete write/read/truncate on ANOTHER file runs (re-entrantly, deterministically) in the middle of an operation, when one of its hole-source reads or device reads/writes is entered - judged by the same per-file oracle and accounting, and compared with the model as 'nested operation first, then the outer one'; one history in forty runs on a simulated device of 8-64 GiB (sparse block device, 4 KiB or 512 B sectors, real bitmap allocator, monitor-only) where sectors are reserved directly from the allocator so that files receive sectors just below / across a multiple of 4 GiB; toDeviceOffset is compared with its fixed-width Lean model on boundary sector numbers through a verif hook; a sixth of the histories run the whole real stack (quota-enforcing pool over the block-device pool over the bitmap allocator) monitor-only: byte-array oracle, exact acceptance/refusal of every NewFile/WriteAt/Truncate against files+bytes quota computed from the oracle's sizes, and after closing everything the full file and byte quota and the full sector capacity must be allocatable again; non-trivial = the history re-used a freed sector, shrank a file into the middle of a sector, and wrote to at least two files; distinct = hash of the op list")
+	res := hx.NewResult("filepool", o, "random write/read/truncate/seek/len/close histories over 1-6 simultaneously open files (<= 10 per history) of the real block-device-backed pool; sector sizes {1,2,3,8,512}, devices of 1-130 sectors, scripted or real bitmap allocator, tagged non-zero hole sources, offsets at sector boundaries +-1 and around the file size, faults injected into device reads/writes, hole-source reads/seeks/Truncate/Close and allocations; in a third of the histories operations are interleaved: a complete write/read/truncate on ANOTHER file runs (re-entrantly, deterministically) in the middle of an operation, when one of its hole-source reads or device reads/writes is entered - judged by the same per-file oracle and accounting, and compared with the model as 'nested operation first, then the outer one'; one history in forty runs on a simulated device of 8-64 GiB (sparse block device, 4 KiB or 512 B sectors, real bitmap allocator, monitor-only) where sectors are reserved directly from the allocator so that files receive sectors just below / across a multiple of 4 GiB; toDeviceOffset is compared with its fixed-width Lean model on boundary sector numbers through a verif hook; a sixth of the histories run the whole real stack (quota-enforcing pool over the block-device pool over the bitmap allocator) against the composed model Model/PoolStack.lean (results, error classes, every answer of the real bitmap allocator against the bitmap model's, allocated set / free sectors / quota remaining after every mutating operation) and the monitors: byte-array oracle, exact acceptance/refusal of every NewFile/WriteAt/Truncate against files+bytes quota computed from the oracle's sizes, and after closing everything the full file and byte quota and the full sector capacity must be allocatable again; non-trivial = the history re-used a freed sector, shrank a file into the middle of a sector, and wrote to at least two files; distinct = hash of the op list")
 	drv, err := hx.StartDriver("filepool")
 	if err != nil {
 		fmt.Fprintln(os.Stderr, "cannot start model driver:", err)
 		os.Exit(3)
 	}
 	defer drv.Close()
+	defer stackClose()
 
 	report := func(lines []string, out outcome) {
 		wantMonitor := out.monitor != ""
@@ -1374,6 +1390,9 @@ func main() {
 		} else {
 			f.Kind, f.What = "mismatch", r.mismatch
 			f.Name = "correspondence Model/FilePool.lean <-> block_device_backed_file_pool.go (theorems C15.file_refines_bytes, C15.isolation, C15.sector_conservation)"
+			if strings.HasPrefix(r.mismatch, "PoolStack ") {
+				f.Name = stackName
+			}
 			f.Expected, f.Actual = r.expected, r.actual
 		}
 		f.Sig = hx.Sig(prop, "filepool", strings.Join(min, ";"))
@@ -1394,7 +1413,7 @@ func main() {
 					Sig:  hx.Sig(prop, "filepool", f.History[0])})
 			}
 			res.Evaluations = 1
-			res.ModelLines = drv.Lines
+			res.ModelLines = drv.Lines + stackLines()
 			res.Write(o)
 			return
 		}
@@ -1403,7 +1422,7 @@ func main() {
 		if out.monitor != "" || out.mismatch != "" {
 			report(f.History, out)
 		}
-		res.ModelLines = drv.Lines
+		res.ModelLines = drv.Lines + stackLines()
 		res.Write(o)
 		return
 	}
@@ -1467,6 +1486,6 @@ func main() {
 	if len(res.Findings) == 0 && offsetFinding != nil {
 		res.Report(*offsetFinding)
 	}
-	res.ModelLines = drv.Lines
+	res.ModelLines = drv.Lines + stackLines()
 	res.Write(o)
 }
